@@ -32,7 +32,8 @@ func (h *KeyMgmt) Unmarshal(v base.HeaderValue) error {
 	protocolProvided := false
 	uriProvided := false
 
-	for k, v := range kvs {
+	for _, k := range sortedKeys(kvs) {
+		v := kvs[k]
 		switch k {
 		case "prot":
 			if v != "mikey" {
